@@ -125,3 +125,13 @@ def shrink(c):
             yield dict(c, sig=dict(s, quirks=s["quirks"] & ~(1 << i)), pkt=dict(p, quirks=p["quirks"] & ~(1 << i)))
     if s["dist"]:
         yield dict(c, sig=dict(s, dist=0))
+
+
+COQ_CHECKER = "check_match"
+
+
+def coq_case(c, mr):
+    if not isinstance(mr, list):
+        return None
+    m = {None: "None", "EXACT": "Some Exact", "FUZZY_TTL": "Some FuzzyTTL", "FUZZY_QUIRKS": "Some FuzzyQuirks"}[mr[0]]
+    return "(%d, %s, %s, (%s, %s))" % (c["md"], G.coq_sig(c["sig"]), G.coq_pkt(c["pkt"]), m, G.coq_wm(mr[1]))
